@@ -166,6 +166,13 @@ def run_check(pid, tier, seed, t0):
         if t["kind"] == "verify" and rep["contract"] is not None:
             json.dump(rep, open(path, "w"), indent=1, default=str)
             reproduced, rout = do_replay(path)
+            if not reproduced and dedupe not in seen_names:
+                # the model of an inductive-step VC need not be a reachable
+                # entry state: bounded native search on the same contract
+                found, rout2 = do_replay(path, search=4000, seed=seed)
+                if found:
+                    reproduced, rout = True, rout2
+                    rep = json.load(open(path))
         rep["replay_result"] = rout
         rep["reproduced_natively"] = reproduced
         json.dump(rep, open(path, "w"), indent=1, default=str)
@@ -270,10 +277,12 @@ def run_check(pid, tier, seed, t0):
     return 0
 
 
-def do_replay(path):
+def do_replay(path, search=None, seed=0):
     try:
-        p = subprocess.run([REPLAY_PY, os.path.join(VERIF, "replay.py"), path,
-                            "--repo", REPO], capture_output=True, text=True,
+        cmd = [REPLAY_PY, os.path.join(VERIF, "replay.py"), path, "--repo", REPO]
+        if search:
+            cmd += ["--search", str(search), "--seed", str(seed), "--budget", "40"]
+        p = subprocess.run(cmd, capture_output=True, text=True,
                            timeout=120)
         try:
             out = json.loads(p.stdout)
